@@ -267,6 +267,8 @@ type cluWorld struct {
 	owned    map[int]map[string]bool
 	dissociated map[string]bool
 	stoppedByOp map[string]bool
+	remapDirty  map[string]bool // nodes whose capacity changed since their last re-map
+	errLabels   []string        // labels of the seam calls failed by injection
 	apps        map[string]bool // "app/entry" seen
 	// C13 monitor
 	mon13 *deployMonitor
@@ -285,7 +287,14 @@ func (w *cluWorld) probe(name string) { w.res.Probes[name]++ }
 
 func newCluWorld(sim *simrt.Sim, res *Result, prop string, cfg cluCfg, seed uint64) *cluWorld {
 	w := &cluWorld{sim: sim, res: res, prop: prop, cfg: cfg, seenV: map[string]bool{}, engines: map[string]*simengine.Node{},
-		owned: map[int]map[string]bool{}, dissociated: map[string]bool{}, stoppedByOp: map[string]bool{}, apps: map[string]bool{}}
+		owned: map[int]map[string]bool{}, dissociated: map[string]bool{}, stoppedByOp: map[string]bool{}, apps: map[string]bool{}, remapDirty: map[string]bool{}}
+	if prop == "C32" {
+		sim.OnRelease = func(ev simrt.TraceEvent) {
+			if ev.What == "err" {
+				w.errLabels = append(w.errLabels, ev.Class+" "+ev.Label)
+			}
+		}
+	}
 	zerolog.SetGlobalLevel(zerolog.Disabled)
 	verifrt.Permute = sim.Permute
 	cryptorand.Reader = &detReader{r: rand.New(rand.NewPCG(seed^0x5555, 77))}
